@@ -12,6 +12,7 @@ import (
 	"sort"
 	"strconv"
 	"strings"
+	"sync"
 	"time"
 )
 
@@ -67,6 +68,8 @@ func isFlagSet(name string) bool {
 	return set
 }
 
+var ruleMu sync.Mutex
+
 type runResult struct {
 	obs   []*Ob
 	prog  *Prog
@@ -89,6 +92,11 @@ func runRules(p *Prog, ids []string, rev *Reviewed) (res runResult) {
 					res.panic = fmt.Sprintf("rule %s panicked: %v\n%s", id, e, debug.Stack())
 				}
 			}()
+			// some engines keep the program they work on in a package variable (idxProg): rules of the real tree and of the
+			// fixture tree, which are loaded in parallel, must not run at the same time
+			ruleMu.Lock()
+			defer ruleMu.Unlock()
+			idxProg = c.P
 			r.Run(c)
 		}()
 		if res.panic != "" {
